@@ -120,7 +120,8 @@ package unite
 //@ func (*Discipline).resetJoin
 //@   requires [*] WFJ(dsc)
 //@   modifies dsc.join
-//@   ensures [* C03 C08 C10] len(dsc.join) == 0 && dsc.join.arr == old(dsc.join.arr) && cap(dsc.join) == old(cap(dsc.join)) && dsc.join.off == old(dsc.join.off)
+//@   ensures [* C03 C10] len(dsc.join) == 0
+//@   ensures [*] dsc.join.arr == old(dsc.join.arr) && cap(dsc.join) == old(cap(dsc.join)) && dsc.join.off == old(dsc.join.off)
 
 //@ func (*Discipline).prepareItem
 //@   requires [*] dsc != nil
